@@ -763,6 +763,8 @@ func C09(tier string) int {
 	prefixes := [][]fop{nil,
 		{{K: "addR"}, {K: "beginW"}, {K: "alloc", A: 1}, {K: "commit"}, {K: "addR"}, {K: "beginW"}, {K: "alloc", A: 1}, {K: "commit"}},
 		{{K: "addR"}, {K: "beginW"}, {K: "free", A: 6}, {K: "commit"}, {K: "addR"}, {K: "beginW"}, {K: "free", A: 7}, {K: "alloc", A: 1}, {K: "commit"}},
+		// one transaction that allocated several single pages (consecutive ids, same allocating tx), a reader older than it
+		{{K: "addR"}, {K: "beginW"}, {K: "alloc", A: 1}, {K: "alloc", A: 1}, {K: "alloc", A: 2}, {K: "commit"}},
 	}
 	var meta []c09Job
 	for _, b := range []string{"array", "hashmap"} {
@@ -823,7 +825,7 @@ func C09(tier string) int {
 	}
 	cov := map[string]interface{}{
 		"states": states, "transitions": trans, "traces_validated_against_impl": trans, "evaluations": trans, "distinct_nontrivial": states,
-		"rule":    fmt.Sprintf("breadth-first search over every sequence of at most %d allocator operations as the database can issue them (Init with each start set over page ids 2..%d, writer begin = ReleasePendingPages, Allocate(1..3), Free of every in-use extent incl. a two-page one, commit = Write, Rollback followed by Reload from the last written page or by NoSyncReload from a rescan, AddReadonlyTXID / RemoveReadonlyTXID with up to 3 readers, Write + Read into both backends), both backends; on the hash-map backend every map iteration order inside Allocate is a choice and all are enumerated; every operation is executed on the real allocator and judged by the specification relation (not lowest-id-first); plus the directed enumeration of list lengths 0,1,2,65533..65537 for the 0xFFFF convention; the search starts from the initial state and from two non-initial states reached by fixed, checked prefixes (readers of different ages with later allocations / pinned pending pages); a state is a distinct (model, allocator dump incl. internal order) key", depth, maxHwm-1),
+		"rule":    fmt.Sprintf("breadth-first search over every sequence of at most %d allocator operations as the database can issue them (Init with each start set over page ids 2..%d, writer begin = ReleasePendingPages, Allocate(1..3), Free of every in-use extent incl. a two-page one, commit = Write, Rollback followed by Reload from the last written page or by NoSyncReload from a rescan, AddReadonlyTXID / RemoveReadonlyTXID with up to 3 readers, Write + Read into both backends), both backends; on the hash-map backend every map iteration order inside Allocate is a choice and all are enumerated; every operation is executed on the real allocator and judged by the specification relation (not lowest-id-first); plus the directed enumeration of list lengths 0,1,2,65533..65537 for the 0xFFFF convention; the search starts from the initial state and from three non-initial states reached by fixed, checked prefixes (readers of different ages with later allocations / pinned pending pages / one transaction that allocated several consecutive single pages); a state is a distinct (model, allocator dump incl. internal order) key", depth, maxHwm-1),
 		"samples": samples, "exhaustive": len(errs) == 0, "harness_errors": errs, "max_depth": maxDepth, "map_order_alternatives_run": orders,
 	}
 	ev := &evid.Evidence{PropertyID: "C09", Tier: tier, Level: "model_checking", Coverage: cov, Violations: len(viols),
